@@ -87,7 +87,7 @@ type HexaCase struct {
 var specHexa = pbt.Register(pbt.Spec[HexaCase]{
 	Prop: "C15", Name: "hexa32-random",
 	Rule: "random 64-bit integers (uniform bits, every magnitude class, boundary catalogue): same three checks as the sweep; non-trivial = |n| >= 32; distinct by n",
-	Quick: 100000, Thorough: 2000000,
+	Quick: 300000, Thorough: 2000000,
 	Draw:  func(t *rapid.T) HexaCase { return HexaCase{N: gen.Int64().Draw(t, "n")} },
 	Run: func(c HexaCase) *pbt.Result {
 		if err := checkHexa(c.N); err != nil {
@@ -109,7 +109,7 @@ const b32digits = "0123456789abcdefghijklmnopqrstuv"
 var specHexaInv = pbt.Register(pbt.Spec[HexaCase]{
 	Prop: "C15", Name: "hexa32-canonical-strings",
 	Rule: "canonical texts built digit by digit (a decimal digit; or x/z + 1..13 base-32 digits without leading zero, value within int64, x-form >= 10; or z8000000000000): ToLong32(s) equals the value computed with strconv.ParseUint(base 32) and ToString32 of it returns s; non-trivial = >= 2 digits; distinct by text",
-	Quick: 100000, Thorough: 1000000,
+	Quick: 300000, Thorough: 1000000,
 	Draw: func(t *rapid.T) HexaCase {
 		switch rapid.IntRange(0, 9).Draw(t, "kind") {
 		case 0:
@@ -226,7 +226,7 @@ type Bits64Case struct {
 var specBits64 = pbt.Register(pbt.Spec[Bits64Case]{
 	Prop: "C15", Name: "bitutil-64-random",
 	Rule: "random and boundary (high int32, low int32, src int64) triples: Composite64 == high<<32|uint32(low), GetHigh64/GetLow64 return the halves, SetHigh64/SetLow64 replace exactly one half, recomposition of src is the identity; non-trivial = both halves non-zero; distinct by the triple",
-	Quick: 100000, Thorough: 2000000,
+	Quick: 300000, Thorough: 2000000,
 	Draw: func(t *rapid.T) Bits64Case {
 		return Bits64Case{H: gen.Int32().Draw(t, "h"), W: gen.Int32().Draw(t, "w"), Src: gen.Int64().Draw(t, "src")}
 	},
